@@ -58,8 +58,8 @@ Lemma c03_timeout_family : forall c, In c family -> forall sched, Forall allowed
   parked s = true -> no_defect s = true -> c_oneway c = false ->
   global_armed s = true \/ exists k, try_armed s = Some k.
 Proof.
-  intros c Hc sched Hs s Hp Hd Ho. fam_conj c sched Hc Hs. unfold good_timeout in G5. cbn [i_st i_gs summary_of] in G5.
-  apply andb_prop in G5 as [T1 T2]. fold (final src_tree c sched) in T1. fold s in T1.
+  intros c Hc sched Hs s Hp Hd Ho. fam_conj c sched Hc Hs. unfold good_timeout in G6. cbn [i_st i_gs summary_of] in G6.
+  apply andb_prop in G6 as [T1 T2]. fold (final src_tree c sched) in T1. fold s in T1.
   impl_elim T1 ltac:(rewrite Hp, Hd, Ho; reflexivity).
   apply orb_prop in T1 as [T1|T1]; [now left|right]. destruct (try_armed s) as [k|]; [now exists k|discriminate].
 Qed.
@@ -73,8 +73,8 @@ Lemma c03_timeout_reply_family : forall c, In c family -> forall sched, Forall a
   let '(s2, g2) := run_worker_n src_tree c 40 (s1, gs_outs (summ src_tree c sched) o1) in
   wdone s2 = true /\ cleaned s2 = true /\ g_ended g2 = true /\ g_reply_kind g2 = Some (KHijack, 504).
 Proof.
-  intros c Hc sched Hs s Hp Hg Hr Hdr Hur Hdi Hu Hsf. fam_conj c sched Hc Hs. unfold good_timeout in G5.
-  cbn [i_st i_gs summary_of] in G5. apply andb_prop in G5 as [T1 T2]. fold (final src_tree c sched) in T2. fold s in T2.
+  intros c Hc sched Hs s Hp Hg Hr Hdr Hur Hdi Hu Hsf. fam_conj c sched Hc Hs. unfold good_timeout in G6.
+  cbn [i_st i_gs summary_of] in G6. apply andb_prop in G6 as [T1 T2]. fold (final src_tree c sched) in T2. fold s in T2.
   impl_elim T2 ltac:(rewrite Hp, Hg, Hr, Hdr, Hur, Hdi, Hu, Hsf; reflexivity).
   unfold summ, trace. destruct (env_step src_tree c EvGlobal s) as [s1 o1].
   destruct (run_worker_n src_tree c 40 (s1, gs_outs (gs_outs gs0 (snd (run src_tree c (init_st 0) sched))) o1)) as [s2 g2].
@@ -91,9 +91,9 @@ Lemma c10_gauge_family : forall c, In c family -> forall sched, Forall allowed s
   (g_gauge g = 0 \/ g_gauge g = -1) /\ (cleaned s = true <-> g_gauge g = -1) /\
   (quiescent s = true -> no_defect s = true -> 1 + g_gauge g = 0).
 Proof.
-  intros c Hc sched Hs s g. fam_conj c sched Hc Hs. unfold good_c10_gauge in G4. cbn [i_st i_gs summary_of] in G4.
-  fold (final src_tree c sched) in G4. fold s in G4. fold (trace src_tree c sched) in G4. fold (summ src_tree c sched) in G4. fold g in G4.
-  apply andb_prop in G4 as [G4 Q]. apply andb_prop in G4 as [V E].
+  intros c Hc sched Hs s g. fam_conj c sched Hc Hs. unfold good_c10_gauge in G5. cbn [i_st i_gs summary_of] in G5.
+  fold (final src_tree c sched) in G5. fold s in G5. fold (trace src_tree c sched) in G5. fold (summ src_tree c sched) in G5. fold g in G5.
+  apply andb_prop in G5 as [G5 Q]. apply andb_prop in G5 as [V E].
   apply orb_prop in V. apply Bool.eqb_prop in E. split; [|split].
   - destruct V as [V|V]; apply Z.eqb_eq in V; auto.
   - rewrite E. apply Z.eqb_eq.
@@ -105,10 +105,10 @@ Lemma c10_res_family : forall c, In c family -> forall sched, Forall allowed sch
   0 <= g_res_min g /\ g_res g <= 1 /\ rc s = g_res g /\ (cleaned s = true -> g_res g = 0) /\
   (c_max_retries c <> 0 -> (reserved s = true <-> g_res g = 1)).
 Proof.
-  intros c Hc sched Hs s g. fam_conj c sched Hc Hs. unfold good_c10_res in G3. cbn [i_st i_gs summary_of] in G3.
-  fold (final src_tree c sched) in G3. fold s in G3. fold (trace src_tree c sched) in G3. fold (summ src_tree c sched) in G3. fold g in G3.
-  repeat match type of G3 with (_ && _) = true => let H2 := fresh "J" in apply andb_prop in G3 as [G3 H2] end.
-  apply Z.leb_le in G3. apply Z.leb_le in J2. apply Z.eqb_eq in J1. repeat split; auto.
+  intros c Hc sched Hs s g. fam_conj c sched Hc Hs. unfold good_c10_res in G4. cbn [i_st i_gs summary_of] in G4.
+  fold (final src_tree c sched) in G4. fold s in G4. fold (trace src_tree c sched) in G4. fold (summ src_tree c sched) in G4. fold g in G4.
+  repeat match type of G4 with (_ && _) = true => let H2 := fresh "J" in apply andb_prop in G4 as [G4 H2] end.
+  apply Z.leb_le in G4. apply Z.leb_le in J2. apply Z.eqb_eq in J1. repeat split; auto.
   - intros Hcl. impl_elim J ltac:(assumption). now apply Z.eqb_eq.
   - intros Hr. destruct (c_max_retries c =? 0) eqn:E; [apply Z.eqb_eq in E; contradiction|].
     apply Bool.eqb_prop in J0. rewrite J0 in Hr. now apply Z.eqb_eq.
@@ -168,9 +168,9 @@ Lemma c10_streams_family : forall c, In c family -> forall sched, Forall allowed
   g_leak g = false /\
   (wdone s = true -> cleaned s = true -> existsb is_terminate sched = false -> c_oneway c = false -> up_alive s = false).
 Proof.
-  intros c Hc sched Hs s g. fam_conj c sched Hc Hs. unfold good_c10_streams in G2. cbn [i_st i_gs i_tm summary_of] in G2.
-  fold (final src_tree c sched) in G2. fold s in G2. fold (trace src_tree c sched) in G2. fold (summ src_tree c sched) in G2. fold g in G2.
-  apply andb_prop in G2 as [L Q]. apply negb_true_iff in L. split; auto.
+  intros c Hc sched Hs s g. fam_conj c sched Hc Hs. unfold good_c10_streams in G3. cbn [i_st i_gs i_tm summary_of] in G3.
+  fold (final src_tree c sched) in G3. fold s in G3. fold (trace src_tree c sched) in G3. fold (summ src_tree c sched) in G3. fold g in G3.
+  apply andb_prop in G3 as [L Q]. apply negb_true_iff in L. split; auto.
   intros Hw Hcl Ht Ho. impl_elim Q ltac:(rewrite Hw, Hcl, Ht, Ho; reflexivity). now apply negb_true_iff in Q.
 Qed.
 
@@ -283,4 +283,61 @@ Lemma refuted_stale_cursor : ~ fresh_cursor_statement src_no_put_reset.
 Proof.
   intros H. destruct witness_stale_cursor as (_ & H1 & _). destruct (H (final src_no_put_reset cfg_park drive) 0) as [H0 _].
   rewrite H0 in H1. discriminate H1.
+Qed.
+
+(* ---------- C02 (proxy half): the recycle condition and what it buys ---------- *)
+Lemma c02_recycle_family : forall c, In c family -> forall sched, Forall allowed sched ->
+  let s := final src_tree c sched in
+  gave s = true ->
+  abandoned s = false /\ (nnew s <= 1)%nat /\ global_armed s = false /\ try_armed s = None /\ up_alive s = false /\
+  cleaned s = true.
+Proof.
+  intros c Hc sched Hs s Hg. fam_conj c sched Hc Hs. unfold good_c02 in G2. cbn [i_st summary_of] in G2.
+  fold (final src_tree c sched) in G2. fold s in G2. impl_elim G2 ltac:(assumption).
+  repeat match type of G2 with (_ && _) = true => let H2 := fresh "J" in apply andb_prop in G2 as [G2 H2] end.
+  apply negb_true_iff in G2. apply Nat.leb_le in J3. apply negb_true_iff in J2. apply negb_true_iff in J1.
+  destruct (try_armed s); [discriminate|]. repeat split; auto.
+Qed.
+
+(* sequences of requests on one pooled object: request n+1 takes the object only after request n gave it back; a reply that was
+   under way for an abandoned, unanswered attempt of an EARLIER user can then still reach the object (the upstreamRequest carries
+   no generation tag) and would be taken for the current request's response.  [carry] = such a reply can exist. *)
+Definition carries (s : st) : bool := gave s && abandoned s.
+Fixpoint foreign_possible (finals : list st) : bool :=
+  match finals with [] => false | s :: rest => carries s || foreign_possible rest end.
+Lemma no_foreign_reply (finals : list st) :
+  Forall (fun s => gave s = true -> abandoned s = false) finals -> foreign_possible finals = false.
+Proof.
+  induction 1 as [|s rest Hs _ IH]; cbn [foreign_possible]; [reflexivity|]. rewrite IH, orb_false_r. unfold carries.
+  destruct (gave s) eqn:E; [|reflexivity]. rewrite (Hs eq_refl). reflexivity.
+Qed.
+Lemma c02_no_foreign_family : forall reqs : list (cfg * list step),
+  Forall (fun r => In (fst r) family /\ Forall allowed (snd r)) reqs ->
+  foreign_possible (map (fun r => final src_tree (fst r) (snd r)) reqs) = false.
+Proof.
+  intros reqs H. apply no_foreign_reply. apply Forall_forall. intros s Hs. apply in_map_iff in Hs as [[c sched] [<- Hr]].
+  rewrite Forall_forall in H. destruct (H _ Hr) as [Hc Ha]. cbn [fst snd] in *. intros Hg.
+  now destruct (c02_recycle_family c Hc sched Ha Hg) as [H1 _].
+Qed.
+
+Definition recycle_statement (src : srcp) : Prop :=
+  forall c sched, gave (final src c sched) = true -> abandoned (final src c sched) = false.
+Lemma refuted_seed_recycle : ~ recycle_statement src_seed_recycle.
+Proof.
+  intros H. destruct witness_seed_recycle as (Hg & Ha & _). rewrite (H cfg_recycle sched_recycle Hg) in Ha. discriminate Ha.
+Qed.
+
+Lemma allowed_sched_plain : Forall allowed sched_plain.
+Proof. unfold sched_plain. repeat (apply Forall_app; split); try (apply Forall_forall; intros x Hx; apply repeat_spec in Hx; subst x; exact I); repeat (apply Forall_cons || apply Forall_nil); cbn; auto. Qed.
+
+Lemma c02_example_holds :
+  let c := mk false false false RouteForward 2 true 0 [] false 0 [] [] [] in
+  In c family /\ Forall allowed sched_plain /\ gave (final src_tree c sched_plain) = true /\
+  gave (final src_tree cfg_recycle sched_recycle) = false /\ g_ended (summ src_tree cfg_recycle sched_recycle) = true.
+Proof.
+  cbn zeta. split; [|split].
+  - unfold family. apply in_or_app. right. apply in_or_app. right. apply in_or_app. left.
+    vm_compute. repeat (first [left; reflexivity | right]).
+  - apply allowed_sched_plain.
+  - vm_compute. repeat split; reflexivity.
 Qed.
